@@ -517,6 +517,7 @@ def run(ctx):
                        'in the histories WRITEABLE of mask arrays is outside the projection (masks are shared by design)']
     if ctx.ensure_library():
         ctx.prove(['theories/Props/C07.v'])
+        ctx.purity_obligations()       # regenerated from the current source: see coq/obl/Pur_C07.v
     # ---- (a) sweep monitor ----
     calls = sweep.call_list(Pm)
     sel = sweep.select(calls, ctx.rng, ctx.tier)
